@@ -120,6 +120,7 @@ def main():
     ap.add_argument("--only", default=None)
     ap.add_argument("--own", action="store_true", help="run only the check of the property the change targets")
     ap.add_argument("--jobs", type=int, default=8)
+    ap.add_argument("--fast", action="store_true", help="skip the (slow) C13 check for changes that do not target C13 and do not touch the type system")
     a = ap.parse_args()
     dirs = sorted(p for p in (VERIF / "seeded").iterdir() if (p / "patch.diff").exists())
     if a.only:
@@ -130,6 +131,10 @@ def main():
     def job(d):
         meta = json.loads((d / "meta.json").read_text()) if (d / "meta.json").exists() else {}
         props = [meta.get("property")] if a.own and meta.get("property") in allp else allp
+        if a.fast and meta.get("property") != "C13":
+            touched = (d / "patch.diff").read_text()
+            if "tree/types.py" not in touched and "ops/" not in touched:
+                props = [p for p in props if p != "C13"]
         return run_one(d, props, meta.get("base_commit"))
 
     with ThreadPoolExecutor(max_workers=a.jobs) as ex:
